@@ -1251,6 +1251,47 @@ def subst_closure(cf, body, params, caps):
     return map_tree(body, one)
 
 
+def opt_norm(fn, e, depth=0):
+    """normal form of an Option-valued expression, the same for the combinator spelling and the `?` spelling:
+       ('some', v)  — Some(v);  ('opt', x) — another Option-valued expression x;  ('none',) — None.
+    Option::map(X, |p| B) -> ('some', B[p := try(X)]);  Option::and_then(X, |p| B) -> opt_norm(B[p := try(X)]);  in B and v a
+    value taken out of an Option with `?` is written ('try', X) in both spellings."""
+    P = fn.prog
+    e = strip(e)
+    if depth > 6:
+        return ('opt', e)
+    if e[0] == 'agg' and e[1].endswith('Option::Some') and e[2]:
+        v = untry(e[2][0][1])
+        if strip(v)[0] == 'try':
+            return ('opt', strip(v)[1])        # Some(x?) is x
+        return ('some', v)
+    if e[0] == 'agg' and e[1].endswith('Option::None'):
+        return ('none',)
+    if e[0] == 'call' and re.search(r'Option::<T>::(map|and_then)$', e[1]) and len(e[2]) == 2 and e[2][1][0] in ('closure', 'fnref') and e[2][1][1] in P.fns:
+        cf = P.fns[e[2][1][1]]
+        ex = [x for x in cf.exits() if x['kind'] not in ('none_prop',)]
+        if len(ex) == 1:
+            if e[2][1][0] == 'closure':
+                body = subst_closure(cf, expand(cf, ex[0]['expr']), [('try', untry(e[2][0]))], e[2][1][2])
+            else:
+                body = subst_args(expand(cf, ex[0]['expr']), [('try', untry(e[2][0]))])
+            if e[1].endswith('::map'):
+                return ('some', untry(body)) if strip(untry(body))[0] != 'try' else ('opt', strip(untry(body))[1])
+            return opt_norm(fn, body, depth + 1)
+    return ('opt', untry(e))
+
+
+def untry(e):
+    """payload-of-try-branch spellings unified: unwrap_Some(try X) / try(X) / unwrap_Continue(branch(X)) -> ('try', X)"""
+    def one(x):
+        if x and x[0] == 'payload' and x[2] in ('Some', 'Continue') and isinstance(x[1], tuple) and x[1] and x[1][0] == 'try':
+            return x[1]
+        if x and x[0] == 'try' and isinstance(x[1], tuple) and x[1] and x[1][0] == 'try':
+            return x[1]
+        return x
+    return map_tree(e, one)
+
+
 def split_values(fn, e, limit=24):
     """the finite set of value trees an expression can stand for, obtained by (1) splitting every local with 2..4 definitions
     (a value merged from the arms of a match / if) into one tree per definition, (2) splitting Option::map(X, closure) into
